@@ -1,2 +1,201 @@
-(** C17 - placeholder *)
-From VG Require Import Model.Config.
+(** C17 - NewTranscoder accepts exactly the servable configurations and honours them.
+    Statements only; proofs in Proofs/ConfigProofs.v, Proofs/TemplateProofs.v, Proofs/RouterProofs.v.
+
+    [new_transcoder ms c] is NewTranscoder on configuration [c] over the schema [ms]: [None] is
+    the error return, [Some s] the tables ([cs_methods], [cs_bindings], the route trie
+    [cs_items]).  [defaults_of c] are the transcoder-wide default service options. *)
+From VG Require Import Model.Bytes Model.Router Model.PathTemplate Model.Request Model.Config Gen.Generated.
+From VG Require Import Proofs.RouterProofs Proofs.TemplateProofs Proofs.ConfigProofs.
+Open Scope Z_scope.
+
+Definition codecs_of (c : tcfg) := builtin_codecs ++ t_codecs c.
+Definition comps_of (c : tcfg) := builtin_compressors ++ t_comps c.
+Definition defaults_of (c : tcfg) := resolve_opts builtin_sopts (t_defaults c).
+
+(** ** What is refused *)
+
+(** A service whose resolved options name an unknown codec or compression, no target protocol or
+    an invalid one, no codec, or a zero limit, makes the whole configuration fail. *)
+Theorem C17_rejects_bad_options : forall ms c sv,
+  In sv (t_services c) ->
+  opts_ok (codecs_of c) (comps_of c) (resolve_opts (defaults_of c) (sr_opts sv)) = false ->
+  new_transcoder ms c = None.
+Proof. exact reject_bad_options. Qed.
+Print Assumptions C17_rejects_bad_options.
+
+(** ... where [opts_ok] fails for each of the named reasons: *)
+Theorem C17_bad_options_cases : forall codecs comps o,
+  (so_protocols o = [] \/ (exists p, In p (so_protocols o) /\ known_protocol p = false) \/
+   so_codecs o = [] \/ (exists n, In n (so_codecs o) /\ bmem n codecs = false) \/
+   (exists n, In n (so_comps o) /\ bmem n comps = false)) ->
+  opts_ok codecs comps o = false.
+Proof. exact opts_ok_cases. Qed.
+Print Assumptions C17_bad_options_cases.
+
+(** A method registered twice (the same service given twice, or two services with the same
+    name) is refused. *)
+Theorem C17_rejects_duplicate_method : forall ms c,
+  ~ NoDup (map (fun core => fst (fst (fst (fst core)))) (flat_map (svc_cores (defaults_of c)) (t_services c))) ->
+  new_transcoder ms c = None.
+Proof. exact reject_duplicate_method. Qed.
+Print Assumptions C17_rejects_duplicate_method.
+
+(** A rule whose selector is malformed, or names no registered method, is refused; so is a rule
+    with nested additional bindings. *)
+Theorem C17_rejects_bad_rule : forall ms c r,
+  In r (t_rules c) ->
+  (parse_selector (r_selector r) = None \/
+   (forall wild text, parse_selector (r_selector r) = Some (wild, text) ->
+      forall core, In core (flat_map (svc_cores (defaults_of c)) (t_services c)) ->
+                   selector_matches wild text (snd (fst (fst (fst core)))) = false) \/
+   (exists b, In b (r_additional r) /\ b_nested b = true)) ->
+  new_transcoder ms c = None.
+Proof. exact reject_bad_rule. Qed.
+Print Assumptions C17_rejects_bad_rule.
+
+(** ** What acceptance guarantees *)
+
+(** Every entry of the REST table stems from a pattern of an annotation of its method or of a
+    rule whose selector names the method; that pattern has an HTTP method and a template that
+    parses; its body and response_body name a single field (or "*"); each path variable names a
+    singular scalar field or one with a scalar JSON form.  ([from_binding] spells this out through
+    [make_target]; see [C17_binding_fields].) *)
+Theorem C17_bindings_have_a_source : forall ms c s,
+  new_transcoder ms c = Some s -> provenance ms (t_rules c) s.
+Proof. intros ms c s H. exact (proj1 (proj2 (proj2 (proj2 (new_transcoder_sound ms c s H))))). Qed.
+Print Assumptions C17_bindings_have_a_source.
+
+Theorem C17_binding_fields : forall ms md mpath b cb,
+  from_binding ms md mpath b cb ->
+  wf_tmpl (r_path (cb_route cb)) = true /\
+  body_fields ms (md_in md) (b_body b) <> None /\ body_fields ms (md_out md) (b_resp b) <> None /\
+  (forall v, In v (cb_vars cb) ->
+     exists fs f, resolve_path ms (md_in md) v = Some fs /\ last_field fs = Some f /\ var_field_ok f = true).
+Proof. exact from_binding_fields. Qed.
+Print Assumptions C17_binding_fields.
+
+(** No two entries share template, verb and HTTP method: every insertion into the trie succeeded,
+    and the trie is the one [build] makes from the accepted routes (to which C06 applies). *)
+Theorem C17_routes_distinct : forall ms c s,
+  new_transcoder ms c = Some s ->
+  build (routes_of s) = (cs_items s, repeat true (length (cs_bindings s))) /\ routes_wf (routes_of s).
+Proof.
+  intros ms c s H. destruct (new_transcoder_sound ms c s H) as (_ & (Hb & Hw & _) & _). split; assumption.
+Qed.
+Print Assumptions C17_routes_distinct.
+
+(** Each binding is reachable through a URL built from its template: a path its template matches,
+    and no other accepted template with the same verb, is routed to it for its HTTP method. *)
+Theorem C17_binding_reachable : forall ms c s i cb path,
+  new_transcoder ms c = Some s -> nth_error (cs_bindings s) i = Some cb ->
+  tmatch (r_path (cb_route cb)) path = true ->
+  (forall cb', In cb' (cs_bindings s) -> tmatch (r_path (cb_route cb')) path = true ->
+               r_verb (cb_route cb') = r_verb (cb_route cb) -> r_path (cb_route cb') = r_path (cb_route cb)) ->
+  exists it, get_target (r_meth (cb_route cb)) (Router.find (cs_items s) path (r_verb (cb_route cb))) = Some it /\ it_idx it = i.
+Proof.
+  intros ms c s i cb path H. destruct (new_transcoder_sound ms c s H) as (_ & HI & _). exact (binding_reachable ms s i cb path HI).
+Qed.
+Print Assumptions C17_binding_reachable.
+
+(** A selector without '*' names exactly the method with that full name; one with '*' is a prefix
+    that is empty or ends at a '.', followed by the single final '*', and names the methods whose
+    full name starts with the prefix. *)
+Theorem C17_selector_exact : forall text name, selector_matches false text name = true <-> text = name.
+Proof. exact selector_exact. Qed.
+Print Assumptions C17_selector_exact.
+
+Theorem C17_selector_wildcard : forall sel text,
+  parse_selector sel = Some (true, text) ->
+  sel = text ++ [42%N] /\ ~ In 42%N text /\ (text = [] \/ ends_with_dot text = true) /\
+  forall name, selector_matches true text name = true <-> exists rest, name = text ++ rest.
+Proof.
+  intros sel text H. destruct (parse_selector_spec sel true text H) as (_ & [(D & _)|(_ & E & N & B)]); [discriminate|].
+  repeat split; auto; apply selector_wild.
+Qed.
+Print Assumptions C17_selector_wildcard.
+
+Theorem C17_selector_plain : forall sel wild text,
+  parse_selector sel = Some (wild, text) -> ~ In 42%N sel -> wild = false /\ text = sel.
+Proof.
+  intros sel wild text H N. destruct (parse_selector_spec sel wild text H) as (_ & [(-> & -> & _)|(_ & E & _)]); [auto|].
+  exfalso. apply N. rewrite E. apply in_app_iff. right. left. reflexivity.
+Qed.
+Print Assumptions C17_selector_plain.
+
+(** Every rule has been applied to every method its selector names (and, by
+    [C17_bindings_have_a_source], to no other). *)
+Theorem C17_rules_applied : forall ms c s,
+  new_transcoder ms c = Some s -> Forall (rule_applied ms s) (t_rules c).
+Proof. intros ms c s H. exact (proj1 (proj2 (proj2 (proj2 (proj2 (new_transcoder_sound ms c s H)))))). Qed.
+Print Assumptions C17_rules_applied.
+
+(** The registered methods are exactly those of the given services, each with its own service's
+    options resolved over the transcoder-wide defaults - whatever other services were given. *)
+Theorem C17_methods_and_options : forall ms c s,
+  new_transcoder ms c = Some s ->
+  map mcore (cs_methods s) = flat_map (svc_cores (defaults_of c)) (t_services c) /\
+  NoDup (map mf_path (cs_methods s)).
+Proof.
+  intros ms c s H. destruct (new_transcoder_sound ms c s H) as (_ & (_ & _ & Hn & _) & Hc & _). split; assumption.
+Qed.
+Print Assumptions C17_methods_and_options.
+
+(** For each kind of option the last one given wins, a service's own before the defaults. *)
+Theorem C17_option_override : forall d opts,
+  let o := resolve_opts d opts in
+  so_protocols o = or_else (last_some get_protocols opts None) (so_protocols d) /\
+  so_codecs o = or_else (last_some get_codecs opts None) (so_codecs d) /\
+  so_preferred o = or_else (option_map (fun l => hd [] l) (last_some get_codecs opts None)) (so_preferred d) /\
+  so_comps o = or_else (last_some get_comps opts None) (so_comps d) /\
+  so_maxbuf o = or_else (last_some get_maxbuf opts None) (so_maxbuf d) /\
+  so_maxget o = or_else (last_some get_maxget opts None) (so_maxget d).
+Proof. intros d opts. exact (resolve_opts_lookup opts d). Qed.
+Print Assumptions C17_option_override.
+
+(** A service that can only be reached as REST has at least one method with a binding. *)
+Theorem C17_rest_only_has_binding : forall ms c s sv,
+  new_transcoder ms c = Some s -> In sv (t_services c) ->
+  rest_only (resolve_opts (defaults_of c) (sr_opts sv)) = true ->
+  exists m, In m (cs_methods s) /\ mf_svc m = sd_name (sr_desc sv) /\ mf_rule m <> None.
+Proof. exact rest_only_bound. Qed.
+Print Assumptions C17_rest_only_has_binding.
+
+(** ** Acceptance (partial): configurations without REST rules.
+    The full converse - every configuration meeting the conditions above is accepted - is proved
+    here for configurations with no annotations and no rules; with rules, acceptance is exercised
+    by the correspondence suite (every generated servable configuration must be accepted). *)
+Theorem C17_accepts_plain_partial : forall ms c,
+  t_rules c = [] ->
+  Forall (fun sv => Forall (fun md => md_rule md = None) (sd_methods (sr_desc sv))) (t_services c) ->
+  Forall (fun sv => opts_ok (codecs_of c) (comps_of c) (resolve_opts (defaults_of c) (sr_opts sv)) = true) (t_services c) ->
+  Forall (fun sv => rest_only (resolve_opts (defaults_of c) (sr_opts sv)) = false) (t_services c) ->
+  NoDup (map (fun core => fst (fst (fst (fst core)))) (flat_map (svc_cores (defaults_of c)) (t_services c))) ->
+  new_transcoder ms c <> None.
+Proof. exact accept_plain. Qed.
+Print Assumptions C17_accepts_plain_partial.
+
+(** Non-vacuity: a two-service configuration with a rule is accepted, its binding is reached. *)
+Definition ex_ms : list msgdesc :=
+  [mkMsg (s2b "p.Req") [mkField (s2b "name") 0 0 []; mkField (s2b "inner") 1 0 (s2b "p.Inner"); mkField (s2b "tags") 0 1 []];
+   mkMsg (s2b "p.Inner") [mkField (s2b "id") 0 0 []]].
+Definition ex_meth (n : string) := mkMeth (s2b n) (s2b "p.Req") (s2b "p.Req") 0 false None.
+Definition ex_cfg : tcfg :=
+  mkTcfg [] [] [OMaxBuf 1000]
+         [mkSvcReg (mkSvc (s2b "p.A") [ex_meth "Get"; ex_meth "GetBook"]) [OProtocols [c_ProtocolREST]; OCodecs [s2b "json"]];
+          mkSvcReg (mkSvc (s2b "p.B") [ex_meth "Get"]) []]
+         [mkRule (s2b "p.A.Get") (mkB 1 [] (s2b "/v1/{inner.id}/x") [] [] false) []].
+Example C17_ex_accepted :
+  match new_transcoder ex_ms ex_cfg with
+  | Some s => map (fun m => (mf_path m, so_protocols (mf_opts m), so_maxbuf (mf_opts m), match mf_rule m with Some _ => true | None => false end)) (cs_methods s)
+              = [(s2b "/p.A/Get", [c_ProtocolREST], 1000, true); (s2b "/p.A/GetBook", [c_ProtocolREST], 1000, false);
+                 (s2b "/p.B/Get", default_protocols, 1000, false)]
+              /\ route_request s (s2b "/v1/abc/x") (s2b "GET") = Found 0 [s2b "abc"]
+  | None => False
+  end.
+Proof. vm_compute. split; reflexivity. Qed.
+Example C17_ex_prefix_selector_rejected :
+  new_transcoder ex_ms (mkTcfg [] [] [] (t_services ex_cfg) [mkRule (s2b "p.A.Ge") (mkB 1 [] (s2b "/v1/x") [] [] false) []]) = None.
+Proof. vm_compute. reflexivity. Qed.
+Example C17_ex_message_variable_rejected :
+  new_transcoder ex_ms (mkTcfg [] [] [] (t_services ex_cfg) [mkRule (s2b "p.A.Get") (mkB 1 [] (s2b "/v1/{inner}") [] [] false) []]) = None.
+Proof. vm_compute. reflexivity. Qed.
